@@ -283,6 +283,20 @@ func (m *Matcher) itemMatch(it gen.ListItem, pos int) (int, bool) {
 		}
 		return l, sub == it.S
 	case "range":
+		if len(it.From) != 1 || len(it.To) != 1 {
+			// bounds of more than one byte: the candidate lengths len(To) .. len(From) are tried longest first,
+			// each compared as a string; a length the input has no room for is skipped
+			for i := len(it.To); i >= len(it.From); i-- {
+				if i < 1 || pos+i > len(t) {
+					continue
+				}
+				v := t[pos : pos+i]
+				if it.From <= v && v <= it.To {
+					return i, true
+				}
+			}
+			return 0, false
+		}
 		if pos >= len(t) {
 			return 0, false
 		}
